@@ -784,6 +784,7 @@ func runCase(c *reg.Ctx, p program, fresh bool, mode int, bin string) {
 		toRun = p.src
 	}
 	would := B.evalCapture(toRun, mode)
+	note(would.Direct) // a panic or hang while the error-free variant runs is a finding too
 	wouldEffs, _ := splitGlobal(would.Effects)
 	d.WouldDo = wouldEffs
 	refExc := would.Kind == "exc"
@@ -882,8 +883,14 @@ func runNested(c *reg.Ctx) {
 			}
 		}
 		c.Count("nested")
+		if direct != "" {
+			directs++
+		}
 		c.Emit(reg.Case{Desc: map[string]any{"src": nc.code, "eval": o}, Key: "nested/" + nc.code,
 			Nontrivial: true, Class: "nested:" + nc.tag, Direct: direct})
+		if directs >= maxDirects {
+			return
+		}
 	}
 }
 
@@ -911,6 +918,9 @@ func run(c *reg.Ctx) {
 	os.WriteFile(filepath.Join(c.Scratch, "lib", "c16bad.elv"), []byte("echo inner-ran\nvar q = 1\nput $nonexistent\n"), 0o644)
 	os.WriteFile(filepath.Join(c.Scratch, "lib", "c16badparse.elv"), []byte("echo inner-ran\necho (\n"), 0o644)
 	runNested(c)
+	if directs >= maxDirects {
+		return
+	}
 	bin := ""
 	if c.Tier == "thorough" {
 		bin = buildBinary(c)
